@@ -638,7 +638,7 @@ def elk_program(batch):
 def run_compose_elk(ctx, t, elk, limit):
     """the terms as Elk expressions `((%/x/ + %/y/) * 2).matches('xyxy')`, many per program"""
     cases = t.elk_cases[:limit]
-    per = 30
+    per = 40
     batches = [cases[i:i + per] for i in range(0, len(cases), per)]
     progs = [("cmp%d" % i, elk_program(b)) for i, b in enumerate(batches)]
     res = vlib.run_programs(elk, progs, os.path.join(ctx.workdir, "compose"), timeout=120, env={"GOMAXPROCS": "2"})
@@ -757,7 +757,7 @@ def compose_stream(ctx, h, m):
     if t.elk_cases:
         elk = vlib.build_elk()
         # corpus cases first (they come first), then the generated ones
-        run_compose_elk(ctx, t, elk, ctx.n(1500, 12000))
+        run_compose_elk(ctx, t, elk, ctx.n(600, 12000))
     t.fails.sort(key=lambda x: (x[0], x[1]))
     seen = {}
     for size, key, what, stream, case, impl, model, oracle in t.fails:
